@@ -27,6 +27,18 @@ def split_sig(arg, name):
     return None
 
 
+def match_tokens(actual, toks):
+    """True iff `actual` is the tokens in order, exact inside every token, any whitespace between them."""
+    pos = 0
+    for t in toks:
+        while pos < len(actual) and actual[pos] in " \t\r\n":
+            pos += 1
+        if not actual.startswith(t, pos):
+            return False
+        pos += len(t)
+    return actual[pos:].strip(" \t\r\n") == ""
+
+
 def check_adm(e, node, fails, where):
     act = [(n, a) for n, a, _ in node.admonitions()]
     exp = e.get("adm") or []
@@ -71,9 +83,7 @@ def check_sig(e, node, fails, where):
         inner = sp[1]
         toks = e["args"]
         if "(" in toks:
-            a = re.sub(r"\s+", "", inner)
-            x = re.sub(r"\s+", "", "".join(toks))
-            if a != x:
+            if not match_tokens(inner, toks):
                 fails.append(("sig:generic-args-grouped", f"{where}: expected tokens {toks!r} got {inner!r}"))
         elif inner != " ".join(toks):
             fails.append(("sig:generic-args", f"{where}: expected {' '.join(toks)!r} got {inner!r}"))
